@@ -121,7 +121,7 @@ def build_obj(name, src, flags):
     return out
 
 
-SHARED = {'ref': ('engine/ref.cpp', ['-O2'])}
+SHARED = {'ref': ('engine/ref.cpp', ['-O2']), 'ref_asan': ('engine/ref.cpp', ['-O1', '-fsanitize=address', '-fno-omit-frame-pointer'])}
 
 
 def shared_obj(name):
